@@ -65,7 +65,13 @@ class C02(Prop):
         crash = C.panic_excerpt(out) if rc != 0 else None
         if (rc != 0 and not crash) or (not cases and not crash):
             raise RuntimeError("C02 harness did not run: rc=%s\n%s" % (rc, out[-2000:]))
-        return {"cases": cases, "races": [r for r in rows if r.get("kind") == "race"], "crash": crash}
+        # second pass: the agent's identity flags on
+        rc2, out2, p2, dt2 = C.go_test_overlay(ctx.work, "./agent/", "TestVerifC02$", OVERLAY, "c02_identity.jsonl", ctx.seed + 1, ctx.tier, timeout=2400, extra_env={"VERIF_SERVER_BIN": srv, "VERIF_C02_IDENTITY": "1"})
+        cases2 = [r for r in C.read_jsonl(p2) if r.get("kind") == "c02"]
+        crash = crash or (C.panic_excerpt(out2) if rc2 != 0 else None)
+        if (rc2 != 0 and not crash) or (not cases2 and not crash):
+            raise RuntimeError("C02 harness (identity flags) did not run: rc=%s\n%s" % (rc2, out2[-2000:]))
+        return {"cases": cases + cases2, "races": [r for r in rows if r.get("kind") == "race"], "crash": crash}
 
     @staticmethod
     def _client_values(req):
@@ -108,6 +114,9 @@ class C02(Prop):
                 res.append(("body-changed:" + cls, "body of %d bytes arrived as %d bytes (hash %s vs %s)" % (q["body_len"], s["body_len"], r["body_hash"], s["body_hash"]), rp))
             cv = self._client_values(q)
             ign = self._ignored(q)
+            if r.get("identity_flags"):
+                ign |= {"Authorization", "X-Inverting-Proxy-User-Id"}
+                rp["agent_flags"] = "--forward-user-id --strip-credentials"
             seen = s["header"] or {}
             for k, vals in cv.items():
                 if k in ign:
